@@ -1,6 +1,6 @@
 import OxiddModel.Dddmp.LemmasLoop
 
-/-! With the two missing range checks (`Guards.all`) the binary importer never panics. -/
+/-! With the range checks of fix 2741478 (`g.relId`, `g.relVar`) the binary importer never panics. -/
 namespace OxiddModel.Dddmp
 
 theorem readUnescape_ne_panic (inp : List Nat) : readUnescape inp ≠ .panic := by
@@ -42,8 +42,8 @@ theorem idFinish_ok {nodeId id : Nat} {r : List Nat} {i : Nat} {r' : List Nat}
 theorem idFinish_ne_panic (nodeId id : Nat) (r : List Nat) : idFinish nodeId id r ≠ .panic := by
   unfold idFinish; split <;> (try split) <;> simp
 
-theorem readIdx_all_ne_panic (inp : List Nat) (nodeId : Nat) (c : Code) :
-    readIdx Guards.all inp nodeId c ≠ .panic := by
+theorem readIdx_all_ne_panic (g : Guards) (hg : g.relId = true) (inp : List Nat) (nodeId : Nat) (c : Code) :
+    readIdx g inp nodeId c ≠ .panic := by
   unfold readIdx
   cases c with
   | terminal => exact idFinish_ne_panic _ _ _
@@ -62,7 +62,7 @@ theorem readIdx_all_ne_panic (inp : List Nat) (nodeId : Nat) (c : Code) :
     | ok p =>
       simp only
       split
-      · simp [Guards.all]
+      · simp
       · exact idFinish_ne_panic _ _ _
 
 theorem readIdx_ok {g : Guards} {inp : List Nat} {nodeId : Nat} {c : Code} {i : Nat} {r : List Nat}
@@ -88,35 +88,23 @@ theorem readIdx_ok {g : Guards} {inp : List Nat} {nodeId : Nat} {c : Code} {i : 
       · split at h <;> simp at h
       · exact idFinish_ok h
 
-/-- with the guard, a resolved variable index is in range; it panics only on a level outside
-`level_suppvar_map` -/
-theorem resolveVid_all {varCode : Code} {vid minLevel : Nat} {lsm slm : List Nat}
+/-- `resolveVid` panics only on a level outside `level_suppvar_map` -/
+theorem resolveVid_ne_panic {varCode : Code} {vid minLevel : Nat} {lsm slm : List Nat}
     (hml : minLevel = levelMax ∨ minLevel < lsm.length) :
-    resolveVid Guards.all varCode vid minLevel lsm slm ≠ .panic ∧
-      ∀ v, resolveVid Guards.all varCode vid minLevel lsm slm = .ok v → v < slm.length := by
+    resolveVid varCode vid minLevel lsm slm ≠ .panic := by
   unfold resolveVid
   by_cases ha : varCode = .absoluteID
   · simp only [ha, ↓reduceIte]
-    split
-    · simp
-    · simp; omega
+    split <;> simp
   · simp only [ha, ↓reduceIte]
     by_cases hm : minLevel = levelMax
     · simp only [hm, ↓reduceIte]
-      split
-      · simp
-      · split
-        · simp
-        · simp [Guards.all] at *; omega
+      split <;> simp
     · simp only [hm, ↓reduceIte]
       have hlt : minLevel < lsm.length := by rcases hml with h | h; exact absurd h hm; exact h
       rw [List.getElem?_eq_getElem hlt]
       simp only
-      split
-      · simp
-      · split
-        · simp
-        · simp [Guards.all] at *; omega
+      split <;> simp
 
 /-- laws of the manager side needed for totality: where the node returned by `reduce` sits, and
 that the caller's `complement` does not move an edge to another level -/
@@ -131,9 +119,10 @@ def LevelsOK {E : Type} (A : Alg E) (bound : Nat) (acc : List E) : Prop :=
 theorem importBinStep_all {E : Type} (A : Alg E) (L : LevelLaws A) (term : E) (lsm slm : List Nat)
     (nodeId : Nat) (acc : List E) (inp : List Nat)
     (hlen : acc.length + 1 = nodeId) (hacc : LevelsOK A lsm.length acc)
-    (hterm : A.level term = levelMax ∨ A.level term < lsm.length) (hslm : ∀ x ∈ slm, x < lsm.length) :
-    importBinStep Guards.all A term lsm slm nodeId acc inp ≠ .panic ∧
-      ∀ x r, importBinStep Guards.all A term lsm slm nodeId acc inp = .ok (x, r) →
+    (hterm : A.level term = levelMax ∨ A.level term < lsm.length) (hslm : ∀ x ∈ slm, x < lsm.length)
+    (g : Guards) (hg1 : g.relId = true) (hg2 : g.relVar = true) :
+    importBinStep g A term lsm slm nodeId acc inp ≠ .panic ∧
+      ∀ x r, importBinStep g A term lsm slm nodeId acc inp = .ok (x, r) →
         (A.level x = levelMax ∨ A.level x < lsm.length) := by
   unfold importBinStep
   cases h1 : readUnescape inp with
@@ -157,9 +146,9 @@ theorem importBinStep_all {E : Type} (A : Alg E) (L : LevelLaws A) (term : E) (l
       | ok p2 =>
         obtain ⟨vid, inp2⟩ := p2
         simp only
-        cases h3 : readIdx Guards.all inp2 nodeId (decodeNodeCode code).2.1 with
+        cases h3 : readIdx g inp2 nodeId (decodeNodeCode code).2.1 with
         | err => simp
-        | panic => exact absurd h3 (readIdx_all_ne_panic _ _ _)
+        | panic => exact absurd h3 (readIdx_all_ne_panic g hg1 _ _ _)
         | ok p3 =>
           obtain ⟨ti, inp3⟩ := p3
           simp only
@@ -167,9 +156,9 @@ theorem importBinStep_all {E : Type} (A : Alg E) (L : LevelLaws A) (term : E) (l
           have htl : ti < acc.length := by omega
           rw [List.getElem?_eq_getElem htl]
           simp only
-          cases h4 : readIdx Guards.all inp3 nodeId (decodeNodeCode code).2.2.2 with
+          cases h4 : readIdx g inp3 nodeId (decodeNodeCode code).2.2.2 with
           | err => simp
-          | panic => exact absurd h4 (readIdx_all_ne_panic _ _ _)
+          | panic => exact absurd h4 (readIdx_all_ne_panic g hg1 _ _ _)
           | ok p4 =>
             obtain ⟨ei, inp4⟩ := p4
             simp only
@@ -178,48 +167,52 @@ theorem importBinStep_all {E : Type} (A : Alg E) (L : LevelLaws A) (term : E) (l
             rw [List.getElem?_eq_getElem hel]
             simp only
             have ht := hacc acc[ti] (List.getElem_mem _)
-            have he := hacc acc[ei] (List.getElem_mem _)
-            have hmin : min (A.level acc[ti]) (A.level acc[ei]) = levelMax ∨
-                min (A.level acc[ti]) (A.level acc[ei]) < lsm.length := by
+            have he0 := hacc acc[ei] (List.getElem_mem _)
+            generalize hedef : (if (decodeNodeCode code).2.2.1 = true then A.complement acc[ei] else acc[ei]) = e
+            have he : A.level e = levelMax ∨ A.level e < lsm.length := by
+              rw [← hedef]; split
+              · rw [L.complement]; exact he0
+              · exact he0
+            have hmin : min (A.level acc[ti]) (A.level e) = levelMax ∨
+                min (A.level acc[ti]) (A.level e) < lsm.length := by
               rcases ht with ht | ht <;> rcases he with he | he <;> simp only [Nat.min_def] <;> split <;> omega
-            obtain ⟨hnp, hok⟩ := @resolveVid_all (decodeNodeCode code).1 vid _ lsm slm hmin
-            cases h5 : resolveVid Guards.all (decodeNodeCode code).1 vid (min (A.level acc[ti]) (A.level acc[ei])) lsm slm with
+            have hnp := @resolveVid_ne_panic (decodeNodeCode code).1 vid _ lsm slm hmin
+            cases h5 : resolveVid (decodeNodeCode code).1 vid (min (A.level acc[ti]) (A.level e)) lsm slm with
             | err => simp
             | panic => exact absurd h5 hnp
             | ok v =>
               simp only
-              have hv := hok v h5
-              rw [List.getElem?_eq_getElem hv]
-              simp only
-              split
-              · simp
-              · refine ⟨by simp, ?_⟩
-                intro x r h
-                simp at h
-                rw [← h.1]
-                have hs := hslm slm[v] (List.getElem_mem _)
-                rcases L.reduce2 slm[v] acc[ti] (if (decodeNodeCode code).2.2.1 = true then A.complement acc[ei] else acc[ei]) with h | h | h
-                · rw [h]; right; exact hs
-                · rw [h]; exact ht
-                · rw [h]
-                  split
-                  · rw [L.complement]; exact he
-                  · exact he
+              cases hv : slm[v]? with
+              | none => simp [hg2]
+              | some level =>
+                simp only
+                split
+                · simp
+                · refine ⟨by simp, ?_⟩
+                  intro x r h
+                  simp at h
+                  rw [← h.1]
+                  have hs := hslm level (List.mem_of_getElem? hv)
+                  rcases L.reduce2 level acc[ti] e with h | h | h
+                  · rw [h]; right; exact hs
+                  · rw [h]; exact ht
+                  · rw [h]; exact he
 
-/-- **totality with the guards**: the node loop of `import_bin` returns `ok` or `err` on every
-input once the two range checks are present -/
+/-- **totality**: the node loop of `import_bin` returns `ok` or `err` on every input once the two
+range checks are present -/
 theorem importBinLoop_all_ne_panic {E : Type} (A : Alg E) (L : LevelLaws A) (term : E) (lsm slm : List Nat)
-    (hterm : A.level term = levelMax ∨ A.level term < lsm.length) (hslm : ∀ x ∈ slm, x < lsm.length) :
+    (hterm : A.level term = levelMax ∨ A.level term < lsm.length) (hslm : ∀ x ∈ slm, x < lsm.length)
+    (g : Guards) (hg1 : g.relId = true) (hg2 : g.relVar = true) :
     ∀ (m nodeId : Nat) (acc : List E) (inp : List Nat), acc.length + 1 = nodeId →
-      LevelsOK A lsm.length acc → importBinLoop Guards.all A term lsm slm m nodeId acc inp ≠ .panic := by
+      LevelsOK A lsm.length acc → importBinLoop g A term lsm slm m nodeId acc inp ≠ .panic := by
   intro m
   induction m with
   | zero => intro nodeId acc inp _ _; simp [importBinLoop]
   | succ m ih =>
     intro nodeId acc inp hlen hacc
     unfold importBinLoop
-    obtain ⟨hnp, hok⟩ := importBinStep_all A L term lsm slm nodeId acc inp hlen hacc hterm hslm
-    cases h : importBinStep Guards.all A term lsm slm nodeId acc inp with
+    obtain ⟨hnp, hok⟩ := importBinStep_all A L term lsm slm nodeId acc inp hlen hacc hterm hslm g hg1 hg2
+    cases h : importBinStep g A term lsm slm nodeId acc inp with
     | err => simp
     | panic => exact absurd h hnp
     | ok p =>
@@ -231,5 +224,201 @@ theorem importBinLoop_all_ne_panic {E : Type} (A : Alg E) (L : LevelLaws A) (ter
         rcases List.mem_append.mp hy with hy | hy
         · exact hacc y hy
         · simp at hy; rw [hy]; exact hok x r h
+
+theorem importBinLoop_length {E : Type} (g : Guards) (A : Alg E) (term : E) (lsm slm : List Nat) :
+    ∀ (m nodeId : Nat) (acc : List E) (inp : List Nat) (nodes : List E) (r : List Nat),
+      importBinLoop g A term lsm slm m nodeId acc inp = .ok (nodes, r) → nodes.length = acc.length + m := by
+  intro m
+  induction m with
+  | zero => intro nodeId acc inp nodes r h; simp [importBinLoop] at h; rw [← h.1]; rfl
+  | succ m ih =>
+    intro nodeId acc inp nodes r h
+    unfold importBinLoop at h
+    cases hs : importBinStep g A term lsm slm nodeId acc inp with
+    | err => simp [hs] at h
+    | panic => simp [hs] at h
+    | ok p =>
+      obtain ⟨x, r'⟩ := p
+      simp only [hs] at h
+      have := ih _ _ _ _ _ h
+      simp at this; omega
+
+/-! ### ASCII mode -/
+
+theorem parseUnsigned_go_ne_panic (max : Nat) : ∀ (s : List Nat) (res : Nat) (num : Bool),
+    parseUnsigned.go max res num s ≠ .panic := by
+  intro s
+  induction s with
+  | nil => intro res num; unfold parseUnsigned.go; split <;> simp
+  | cons c r ih =>
+    intro res num
+    unfold parseUnsigned.go
+    split
+    · simp only
+      split
+      · simp
+      · exact ih _ _
+    · split
+      · split
+        · simp
+        · exact ih _ _
+      · simp
+
+theorem parseUnsigned_ne_panic (max : Nat) (s : List Nat) : parseUnsigned max s ≠ .panic :=
+  parseUnsigned_go_ne_panic max s 0 false
+
+theorem parseEdgeList_go_ne_panic : ∀ (s : List Nat) (i : Nat) (neg num : Bool) (acc : List Int),
+    parseEdgeList.go i neg num acc s ≠ .panic := by
+  intro s
+  induction s with
+  | nil => intro i neg num acc; unfold parseEdgeList.go; simp
+  | cons c r ih =>
+    intro i neg num acc
+    unfold parseEdgeList.go
+    split
+    · simp only
+      split
+      · simp
+      · exact ih _ _ _ _
+    · split
+      · split
+        · simp
+        · split
+          · simp
+          · exact ih _ _ _ _
+      · split
+        · split
+          · exact ih _ _ _ _
+          · exact ih _ _ _ _
+        · simp
+
+theorem parseEdgeList_ne_panic (s : List Nat) : parseEdgeList s ≠ .panic :=
+  parseEdgeList_go_ne_panic s 0 false false []
+
+theorem asciiChildren_ne_panic {E : Type} (A : Alg E) (level nodeId : Nat) (nodes : List E)
+    (hlen : nodes.length + 1 = nodeId) : ∀ (cs : List Int), (∀ c ∈ cs, c ≠ 0) →
+    asciiChildren A level nodeId nodes cs ≠ .panic := by
+  intro cs
+  induction cs with
+  | nil => intro _; simp [asciiChildren]
+  | cons c cs ih =>
+    intro h
+    unfold asciiChildren
+    simp only
+    split
+    · simp
+    · rename_i hlt
+      have hc := h c (by simp)
+      have : c.natAbs - 1 < nodes.length := by omega
+      rw [List.getElem?_eq_getElem this]
+      simp only
+      generalize (if c < 0 then A.complement nodes[c.natAbs - 1] else nodes[c.natAbs - 1]) = ce
+      split
+      · simp
+      · have := ih (fun x hx => h x (by simp [hx]))
+        cases hr : asciiChildren A level nodeId nodes cs with
+        | ok es => simp
+        | err => simp
+        | panic => exact absurd hr this
+
+theorem importAsciiLine_ne_panic {E : Type} (A : Alg E) (varinfo : Nat) (slm : List Nat) (nodeId : Nat)
+    (nodes : List E) (ln : List Nat) (hlen : nodes.length + 1 = nodeId) :
+    importAsciiLine A varinfo slm nodeId nodes ln ≠ .panic := by
+  unfold importAsciiLine
+  cases h1 : parseUnsigned (usize64 - 1) ln with
+  | err => simp
+  | panic => exact absurd h1 (parseUnsigned_ne_panic _ _)
+  | ok p =>
+    obtain ⟨idNo, rest⟩ := p
+    simp only
+    split
+    · simp
+    · split
+      · simp
+      · rename_i heq
+        exfalso
+        split at heq
+        · split at heq <;> simp at heq
+        · simp at heq
+      · rename_i rest' hrest
+        skip
+        split
+        · simp
+        · rename_i varId rest2 _
+          cases h2 : parseEdgeList rest2 with
+          | err => simp
+          | panic => exact absurd h2 (parseEdgeList_ne_panic _)
+          | ok children =>
+            simp only
+            split
+            · simp
+            · split
+              · split
+                · simp
+                · split <;> simp
+              · rename_i hc0
+                cases h3 : parseUnsigned u32Max varId with
+                | err => simp
+                | panic => exact absurd h3 (parseUnsigned_ne_panic _ _)
+                | ok q =>
+                  obtain ⟨var, _⟩ := q
+                  simp only
+                  split
+                  · simp
+                  · rename_i level _
+                    have hnz : ∀ c ∈ children, c ≠ 0 := by
+                      intro c hc h0
+                      subst h0
+                      exact hc0 (by simpa using hc)
+                    have := asciiChildren_ne_panic A level nodeId nodes hlen children hnz
+                    cases h4 : asciiChildren A level nodeId nodes children with
+                    | ok es => simp
+                    | err => simp
+                    | panic => exact absurd h4 this
+
+theorem importAsciiLoop_ne_panic {E : Type} (A : Alg E) (varinfo : Nat) (slm : List Nat) :
+    ∀ (m nodeId : Nat) (nodes : List E) (inp : List Nat), nodes.length + 1 = nodeId →
+      importAsciiLoop A varinfo slm m nodeId nodes inp ≠ .panic ∧
+      ∀ ns r, importAsciiLoop A varinfo slm m nodeId nodes inp = .ok (ns, r) → ns.length = nodes.length + m := by
+  intro m
+  induction m with
+  | zero =>
+    intro nodeId nodes inp _
+    refine ⟨by simp [importAsciiLoop], ?_⟩
+    intro ns r h; simp [importAsciiLoop] at h; rw [← h.1]; rfl
+  | succ m ih =>
+    intro nodeId nodes inp hlen
+    unfold importAsciiLoop
+    cases hr : readLine inp with
+    | none => simp
+    | some p =>
+      obtain ⟨ln, rest⟩ := p
+      simp only
+      cases hl : importAsciiLine A varinfo slm nodeId nodes ln with
+      | err => simp
+      | panic => exact absurd hl (importAsciiLine_ne_panic A varinfo slm nodeId nodes ln hlen)
+      | ok e =>
+        simp only
+        obtain ⟨h1, h2⟩ := ih (nodeId + 1) (nodes ++ [e]) rest (by simp; omega)
+        refine ⟨h1, ?_⟩
+        intro ns r h
+        have := h2 ns r h
+        simp at this; omega
+
+theorem importRoots_ne_panic {E : Type} (A : Alg E) (nodes : List E) (roots : List Int)
+    (h : ∀ r ∈ roots, r ≠ 0 ∧ r.natAbs ≤ nodes.length) : importRoots A nodes roots ≠ .panic := by
+  induction roots with
+  | nil => simp [importRoots]
+  | cons r rs ih =>
+    have hr := h r (by simp)
+    have : r.natAbs - 1 < nodes.length := by omega
+    have ih' := ih (fun x hx => h x (by simp [hx]))
+    unfold importRoots
+    rw [List.getElem?_eq_getElem this]
+    simp only
+    cases hrs : importRoots A nodes rs with
+    | ok es => simp
+    | err => simp
+    | panic => exact absurd hrs ih'
 
 end OxiddModel.Dddmp
